@@ -744,6 +744,11 @@ def _run_multi(case, tmpdir):
     _MSTEPS = [0]
     try:
         idxs = [make(i) for i in range(len(specs))]
+        for ix in idxs:
+            # every case starts from empty caches (public API), so that a replay does not depend on what earlier cases
+            # of this worker process left in process-wide state
+            if ix.cache_config.enabled:
+                EmbeddingsCache.from_config(ix.cache_config).clear()
         results = {}
 
         async def run_op(k, op):
